@@ -387,6 +387,10 @@ def correspond(ctx, model):
     edge_cases(ctx, model, rng)
     if len(ctx.violations) >= 5:
         return
+    # 2i. DEFAULT precision (no jax_enable_x64): a worker subprocess runs a sample of every family at float32 / complex64
+    default_precision_stream(ctx, model, rng)
+    if len(ctx.violations) >= 5:
+        return
     # 3. which constructions advertise a prox / are rejected (exhaustive over the small configuration space)
     guard_cases(ctx, model)
     reject_cases(ctx, model)
@@ -586,6 +590,68 @@ def default_cases(ctx, model, rng):
             if p_impl.shape != np.asarray(p_model).shape or not common.allclose(p_impl, np.real(p_model), k=max(n, 1), rtol=1e-9):
                 ctx.disagree(f"prox.{fam}.defaults", _public(case), pc._js(p_impl), pc._js(p_model), oracle=None,
                              note="object built with its default arguments / prox with the default lam differs from the model at the recorded defaults")
+
+
+def default_precision_stream(ctx, model, rng):
+    """the library's DEFAULT mode (jax_enable_x64 off: float32 / complex64 throughout, Python scalars weakly typed).  A worker subprocess
+    (`prox_nox64_worker.py`) builds every family - structured and boundary cases (exact float32 ties: all values are dyadic with few bits), plain /
+    N-d / block layouts, real and complex - and calls `prox` once: nothing may raise, the returned dtype must be the input dtype, the value must
+    equal the model's (computed here) at the float32 relative tolerance, the objective must not be worse than at the model's point; every
+    disagreement goes through the property oracle inside the worker (default precision)."""
+    import os
+    import subprocess
+    import sys
+
+    items = []
+    ns, nb = ctx.n(3, 14), ctx.n(2, 8)
+    for fam in _families():
+        for k in range(ns + nb):
+            case = pg.structured(rng, fam) if k < ns else pg.boundary(rng, fam)
+            case["dtype"] = "float32"
+            case["stream"] = "default-precision"
+            with warnings.catch_warnings():
+                warnings.simplefilter("ignore")
+                pm, margin = pc.model_eval(model, case)
+            pub = _public(case)
+            items.append({"case": pub, "model": {"re": np.real(pm).tolist(), "im": np.imag(pm).tolist() if np.iscomplexobj(pm) else []}, "margin": margin})
+    if not items:
+        return
+    env = {k_: v for k_, v in os.environ.items() if k_ != "JAX_ENABLE_X64"}
+    p = subprocess.run([sys.executable, str(common.VERIF / "harness" / "prox_nox64_worker.py")],
+                       input=json.dumps({"repo": str(common.REPO), "items": items, "seed": ctx.seed}), capture_output=True, text=True, env=env)
+    if p.returncode != 0:
+        raise common.Infra("default-precision worker failed: " + p.stderr[-1500:])
+    for it, rec in zip(items, json.loads(p.stdout)["results"]):
+        case = it["case"]
+        fam = case["fam"]
+        ctx.count(f"default-precision:{fam}:{'c64' if case.get('cplx') else 'f32'}:{'block' if case.get('blocks') is not None else 'plain'}")
+        ctx.case(dict(_desc(case), mode="no-x64"), "nox64-" + _key(case))
+        mode = "float32/complex64, jax_enable_x64 off"
+        if rec.get("raised"):
+            if rec.get("raised_in_scico", True):
+                ctx.violation({"kind": "failing-input", "op": f"prox.{fam}.default_precision", "case": case, "mode": mode,
+                               "failing": {"reason": "the implementation raised in default precision", "exception": rec["raised"], "where": rec.get("where")}},
+                              True, f"prox.{fam}: raised in default precision")
+                continue
+            raise common.Infra(f"default-precision worker: harness exception {rec['raised']} at {rec.get('where')}")
+        if rec.get("near_tie"):
+            ctx.count("discarded:near-tie")
+            continue
+        bad = []
+        if not rec.get("dtype_ok"):
+            bad.append("returned dtype " + ",".join(rec.get("dtypes", [])))
+        if not rec.get("finite"):
+            bad.append("non-finite result")
+        if not rec.get("value_ok"):
+            bad.append("value differs from the model beyond 1e-4 relative")
+        if rec.get("objective_ok") is False:
+            bad.append(f"objective {rec.get('objective')} worse than at the model's point")
+        if bad:
+            ctx.count(f"disagree:{fam}:default-precision")
+            ctx.disagree(f"prox.{fam}.default_precision", dict(case, mode=mode), {k_: rec.get(k_) for k_ in ("dtypes", "value_ok", "objective", "finite")}, "; ".join(bad),
+                         oracle=lambda _c, rec=rec, bad=bad: rec.get("failing") or ({"reason": bad[0], "mode": "jax_enable_x64 off", "dtypes": rec.get("dtypes")}
+                                                                                    if not rec.get("dtype_ok") or not rec.get("finite") else None),
+                         note="default precision (no x64): " + "; ".join(bad))
 
 
 def _scaled(case, c):
